@@ -131,6 +131,8 @@ class Gen:
                 body = body_fn(self, cx)
             else:
                 body = [self.simple(cx, r.randrange(0, depth + 1)) for _ in range(nst or r.choice([1, 2, 3, 5, 8]))]
+            if r.random() < 0.12:
+                body = list(body) + [('exit',)]        # an explicit exit as last statement (the compiler adds its own after it)
             handlers.append({'name': hn, 'args': args, 'locals': locs, 'body': body, 'method': False})
         return finish_script({'props': props, 'globals': sglobals, 'factory': None, 'scr_num': r.choice([0, 1, 7, 300]),
                               'handlers': handlers})
@@ -142,7 +144,7 @@ EXPR_SCHEMA = {'int': 'A', 'str': 'A', 'sym': 'N', 'loc': 'A', 'par': 'A', 'glob
                'menuname': 'E', 'menuitems': 'E', 'numberof': 'A', 'sysprop': 'A', 'special': 'A', 'datetime': 'A', 'keyprop': 'N',
                'lastchunk': 'AE', 'numchunks': 'AE', 'chunk': 'ME', 'field': 'E', 'accessor': 'EN', 'mcall': 'RNL'}
 STMT_SCHEMA = {'set': 'TE', 'call': 'NL', 'lcall': 'AL', 'if': 'EB', 'ife': 'EBB', 'while': 'EB', 'with': 'AEEB', 'down': 'AEEB',
-               'in': 'AEB', 'exit_repeat': '', 'setthe': 'NE', 'setobjprop': 'AEAE', 'setmenuprop': 'AEEE', 'setsys': 'AE',
+               'in': 'AEB', 'exit_repeat': '', 'exit': '', 'setthe': 'NE', 'setobjprop': 'AEAE', 'setmenuprop': 'AEEE', 'setsys': 'AE',
                'setspecial': 'AE', 'setaccessor': 'ENE', 'put': 'AEE', 'delete': 'E', 'hilite': 'E', 'tell': 'EB', 'mcall': 'RNL'}
 
 def walk_node(node, is_stmt, fn_name, fn_expr=None):
